@@ -169,7 +169,7 @@ def parse_env(tok):
     return m
 
 
-def ref_line(line):
+def ref_line(line, penv=None):
     t = line.split()
     op = t[0]
     if op == "reset":
@@ -188,7 +188,10 @@ def ref_line(line):
             argv = words                      # a vector that is already null-terminated is passed through
         else:
             argv = [CHILD] + words[1:]        # argv[0] is replaced by the executable
-        envs = ",".join(hx(k + b"=" + env[k]) for k in sorted(env)) if env else "inherit"
+        if env:
+            envs = ",".join(hx(k + b"=" + env[k]) for k in sorted(env))           # Map order: by name
+        else:                                                                  # inherited: API-set variables, sorted as strings
+            envs = "inherit:" + (",".join(hx(e) for e in sorted(k + b"=" + v for k, v in (penv or {}).items())) or "-")
         return (f"x ok=1 pipes={streams & 7} argv={','.join(hx(a) for a in argv)} env={envs}"
                 f" | joined=1 exit=42 eof=1 err=- after=0")
     if op == "io":
@@ -237,13 +240,36 @@ def ref_proc(t, st):
     return "bad-op"
 
 
+def ref_env(t, penv):
+    """setenv/unsetenv/getenv semantics (POSIX): names are non-empty and contain no `=`; an empty value removes the variable"""
+    if t[1] == "set":
+        k, v = unhx(t[2]), unhx(t[3])
+        if not k or b"=" in k:
+            return "e ok=0"
+        if v:
+            penv[k] = v
+        else:
+            penv.pop(k, None)
+        return "e ok=1"
+    if t[1] == "get":
+        return "e val=" + hx(penv.get(unhx(t[2]), unhx(t[3])))
+    if t[1] == "all":
+        return "e all=" + (",".join(hx(k + b"=" + penv[k]) for k in sorted(penv)) or "-")
+    return "bad-op"
+
+
 def reference(hist):
     st = [0, 0, 0, 0, None]
+    penv = {}
     out = []
     for l in hist:
         t = l.split()
         if t[0] == "p":
             out.append(ref_proc(t, st))
+        elif t[0] == "env":
+            out.append(ref_env(t, penv))
+        elif t[0] == "run":
+            out.append(ref_line(l, penv))
         elif t[0] == "killtest":
             out.append("kill ok=1 | running=1 killed=1 after=0")
         else:
@@ -374,6 +400,31 @@ def proc_histories(rng, quick):
     return hs
 
 
+ENV_NAMES = [b"NVT_A", b"NVT_A1", b"NVT_B", b"NVT_", b"NVT_long_name_0123456789"]
+ENV_BAD = [b"", b"A=B", b"=", b"NVT_A="]
+ENV_VALUES = [b"", b"", b"1", b"two words", b"=", b"a=b", b"\xc3\xa9"]
+
+
+def env_histories(rng, quick):
+    hs = []
+    for _ in range(150 if quick else 2000):
+        h = []
+        for _ in range(rng.choice([4, 8, 14])):
+            k = rng.random()
+            if k < 0.45:
+                h.append(f"env set {hx(rng.choice(ENV_NAMES) if rng.random() < 0.85 else rng.choice(ENV_BAD))} {hx(rng.choice(ENV_VALUES))}")
+            elif k < 0.7:
+                h.append(f"env get {hx(rng.choice(ENV_NAMES) if rng.random() < 0.9 else rng.choice(ENV_BAD))} {hx(rng.choice([b'', b'dflt']))}")
+            elif k < 0.85:
+                h.append("env all")
+            else:
+                form = rng.choice(["argv", "list", "cmd", "startargv", "startcmd"])
+                streams = 0 if form.startswith("start") else rng.choice([0, 1, 3])
+                h.append(f"run {form} {streams} {rng.choice(ENVS[:2])} {hx(b'a')}")
+        hs.append(h)
+    return hs
+
+
 def chunks(lines, n):
     return [lines[i:i + n] for i in range(0, len(lines), n)]
 
@@ -382,7 +433,7 @@ def nontrivial(h, out):
     """distinct = distinct observation lines of ops that produced at least two results / two words / ran a child"""
     keys = set()
     for l, o in zip(h, out):
-        if o.startswith("p ") and len(h) >= 3:
+        if o.startswith(("p ", "e ")) and len(h) >= 3:
             keys.add((tuple(h), o))
         elif o.count(":") >= 2 or (o.startswith("s ") and not o.startswith("s 0") and not o.startswith("s 1 ")) or o.startswith(("x ", "io ", "exit ")):
             keys.add(o.split(" | ")[0] if o.startswith("x ") else o)
@@ -415,7 +466,8 @@ def histories_for(ctx):
     rs = random_split(rng, 4000 if quick else 60000)
     rl, il, xl = run_lines(rng, quick), io_lines(rng, quick), exit_lines(rng, quick)
     ph = proc_histories(rng, quick)
-    hs = corpus + ph + chunks(ea, 40) + chunks(ra, 40) + chunks(es + es2, 40) + chunks(rs, 40) + chunks(rl, 8) + chunks(il, 3) + chunks(xl, 8)
+    eh = env_histories(rng, quick)
+    hs = corpus + ph + eh + chunks(ea, 40) + chunks(ra, 40) + chunks(es + es2, 40) + chunks(rs, 40) + chunks(rl, 8) + chunks(il, 3) + chunks(xl, 8)
     ctx.cov["rule"] = (
         f"corpus ({len(corpus)}) + args: every argv of <= {AMAX[quick]} words over {len(WORDS)} words "
         f"({', '.join(w.decode() for w in WORDS)}) with the option table a/alpha=flag, b=flag without long name, o/out=required value, "
@@ -425,7 +477,7 @@ def histories_for(ctx):
         f"({len(es)}){'' if quick else f' and <= 6 symbols over a, b, blank, quote, backslash ({len(es2)})'} + {len(rs)} random lines, 20 s watchdog; "
         f"run: {len(rl)} launches of the helper child through every start/open form x redirection mask x environment (empty=inherit, 1..3 variables) "
         f"with argv/environment echoed back; io: redirection masks 0..7 x payload sizes {SIZES} ({len(il)} runs, stdin payload written and "
-        f"stdout/stderr read to end-of-file, CRC-32 compared); exit: {len(xl)} exit codes through start(command)+join; Process object: every sequence of <= {3 if quick else 4} calls over {len(POPS)} calls (start, open with masks 0/1/7, join, kill, close, isRunning, read with stream selection, destructor) + random sequences ({len(ph)} histories; pid/descriptor bookkeeping, results, EINVAL), ""a child blocked on its stdin is killed (4 masks). "
+        f"stdout/stderr read to end-of-file, CRC-32 compared); exit: {len(xl)} exit codes through start(command)+join; Process object: every sequence of <= {3 if quick else 4} calls over {len(POPS)} calls (start, open with masks 0/1/7, join, kill, close, isRunning, read with stream selection, destructor) + random sequences ({len(ph)} histories; pid/descriptor bookkeeping, results, EINVAL), a child blocked on its stdin is killed (4 masks); environment: {len(eh)} random histories of setEnvironmentVariable/getEnvironmentVariable/getEnvironmentVariables mixed with launches that inherit the environment. "
         "distinct_nontrivial = distinct observation lines with >= 2 results / >= 2 words / a child run")
     ctx.cov["exhaustive"] = True
     ctx.cov["exhaustive_scope"] = (f"argv words<={AMAX[quick]} over {len(WORDS)}-word alphabet: {len(ea)}; command lines <= {SMAX[quick]} "
@@ -457,7 +509,7 @@ def check(ctx):
         ops = {}
         for h in hs:
             for l in h:
-                k = l.split()[0] + ("/" + l.split()[1] if l.startswith("run") else "")
+                k = l.split()[0] + ("/" + l.split()[1] if l.startswith(("run", "env", "p ")) else "")
                 ops[k] = ops.get(k, 0) + 1
         ctx.cov["op_histogram"] = ops
         ctx.cov["samples"] = [" ; ".join(h[:3]) for h in (hs[:1] + hs[len(hs) // 3: len(hs) // 3 + 1] + hs[len(hs) // 2: len(hs) // 2 + 2] + hs[-40:-39] + hs[-1:])]
